@@ -15,6 +15,8 @@ Tie:    X  (1) Model/Path.v vs os.path.normpath / os.path.join / os.path.dirname
                response must not reveal the decoy, and every command the model refuses
                (cmd_paths = Err) must be answered NO/BAD.  For CREATE that answers OK the
                directories made must be the ones the model derives.
+           (3) the mailbox table after a scripted history vs Model.Path.db_run (C09_db_rows_inside is
+               about that model); after every world all rows must be canonical names.
 """
 from __future__ import annotations
 
@@ -36,7 +38,7 @@ import world as W
 ROOTS = ["/m", "/m/", "", "rel", "/"]
 CHUNK = 500
 DECOY_N = 7
-FULL_ENC_NAMES = 30
+FULL_ENC_NAMES = 18
 
 
 # ------------------------------------------------------------------ Coq terms
@@ -481,7 +483,7 @@ def judge_response(out, sent_name):
         if m or ms:
             # LIST/LSUB show database names; STATUS echoes the client's spelling (a leading "/" is allowed)
             nm = (m or ms).group(1).decode("latin-1")
-            if (m and nm.startswith("/")) or nm.startswith("//") or ".." in nm.split("/"):
+            if (m and nm.startswith("/")) or ".." in nm.split("/"):
                 bad.append(f"a mailbox outside the mail directory is listed: {o[:120]!r}")
     return bad
 
@@ -631,7 +633,7 @@ def end_to_end(ctx, proof_ok):
     def names(w):
         return attack_names(w, ctx)
 
-    short = lambda w: attack_names(w, ctx)[:16]
+    short = lambda w: attack_names(w, ctx)[:12]
     run_world(ctx, "fresh", names, cases)
     run_world(ctx, "history+restart", names if ctx.thorough else short, cases,
               restart_every=(97 if ctx.thorough else None))
@@ -678,8 +680,11 @@ def end_to_end(ctx, proof_ok):
         if id(c) not in refused_ids:
             continue  # a name inside the root: existence may of course show
         pairs += 1
-        a = [masked(x.encode("latin-1"), n) for x in c["response"]]
-        b = [masked(x.encode("latin-1"), t["name"]) for x in t["response"]]
+        news = ("exists", "recent", "expunge", "fetchflags")   # queued news of the selected inbox
+        a = [masked(x.encode("latin-1"), n) for x in c["response"]
+             if W.classify(x.encode("latin-1"))[0] not in news]
+        b = [masked(x.encode("latin-1"), t["name"]) for x in t["response"]
+             if W.classify(x.encode("latin-1"))[0] not in news]
         if a != b:
             ctx.violation(f"{p}: the answer tells an existing directory outside the mail directory from a missing one",
                           dict(c, twin=t["command"], twin_response=t["response"],
@@ -718,15 +723,78 @@ def end_to_end(ctx, proof_ok):
         ctx.proof_broken.append({"what": "the attack language contains no name the model refuses (vacuous run)"})
 
 
+def table_level(ctx, proof_ok):
+    """the mailbox table after a scripted history vs Model.Path.db_run (an over-approximation)"""
+    def sel(old):
+        return f"(fun r => str_eqb r {cs(old)} || startswith r {cs(old + '/')})"
+
+    script = [
+        ("t SELECT inbox", f"OpGet {cs('inbox')}"),
+        ("t CREATE a/b", f"OpCreate {cs('a/b')}"),
+        ('t CREATE "x y"', f"OpCreate {cs('x y')}"),
+        ("t CREATE ../esc", f"OpCreate {cs('../esc')}"),
+        ("t RENAME a c", f"OpRename {cs('a')} {cs('c')} {sel('a')}"),
+        ("t RENAME c ../esc2", f"OpRename {cs('c')} {cs('../esc2')} {sel('c')}"),
+        ("t CREATE c/b/d", f"OpCreate {cs('c/b/d')}"),
+        ("t DELETE c/b/d", f"OpDelete {cs('c/b/d')}"),
+        ("t RENAME inbox saved", f"OpCreate {cs('saved')}"),
+        ('t STATUS "/x y" (MESSAGES)', f"OpGet {cs('/x y')}"),
+        ("t CREATE INBOX/sub", f"OpCreate {cs('INBOX/sub')}"),
+        ("t CREATE /lead//slash/./", f"OpCreate {cs('/lead/slash')}"),
+        ('t LIST "" "*"', None),
+    ]
+    w = W.World()
+    try:
+        w.session("A")
+        outs = [(line, [o.decode("latin-1")[:100] for o in w.cmd("A", line)]) for line, _ in script]
+        real = set(db_names(w))
+        listed = set()
+        for o in outs[-1][1]:
+            m = LISTED.match(o.encode("latin-1"))
+            if m:
+                listed.add(m.group(1).decode("latin-1"))
+        check_db(ctx, w, "table")
+    finally:
+        w.close()
+    ctx.count({"table": [l for l, _ in script]}, nontrivial=True)
+    if not proof_ok:
+        return
+    t = ("From Asimap Require Import Base.Res Model.Path.\nOpen Scope Z_scope.\nEval vm_compute in (db_run "
+         + clist([op for _, op in script if op]) + ").\n")
+    v = core.parse_coq_values(ctx.coq.eval_cases("c09t", t))[0]
+    model = {"".join(chr(x) for x in row) for row in json.loads(v.replace(";", ","))}
+    ctx.extra["table_level"] = {"rows_real": sorted(real), "rows_model": sorted(model)}
+    if not real <= model:
+        ctx.proof_broken.append({"what": "model/code tie: the mailbox table holds rows Model.Path.db_run does not derive",
+                                 "extra_rows": sorted(real - model), "history": outs})
+    shown = {("inbox" if n == "INBOX" else n) for n in listed}
+    if not shown <= real:
+        ctx.proof_broken.append({"what": "model/code tie: LIST shows a name that is not a row of the mailbox table",
+                                 "names": sorted(shown - real)})
+
+
 def run(ctx):
     ctx.coverage["rule"] = ("function level: every string over {a . /} up to length 6 (quick) / 8 (thorough) plus random "
                             "strings (spaces, INBOX spellings, control and non-ASCII characters, slash-joined special "
                             "components); non-trivial = contains '/' or '.'.  end to end: every mailbox-name position x "
                             "attack name x encoding (atom/quoted/literal) x history (fresh | history+restart); distinct = "
                             "distinct (history, position, encoding, name)")
+    import time
+
+    phases = {}
+    t0 = time.time()
     ok = ctx.prove("Properties/C09.v")
+    phases["prove"] = round(time.time() - t0, 1)
+    t0 = time.time()
     function_level(ctx, ok)
+    phases["function_level"] = round(time.time() - t0, 1)
+    t0 = time.time()
+    table_level(ctx, ok)
+    phases["table_level"] = round(time.time() - t0, 1)
+    t0 = time.time()
     end_to_end(ctx, ok)
+    phases["end_to_end"] = round(time.time() - t0, 1)
+    ctx.extra["phase_seconds"] = phases
     ctx.trusted += [
         "modelled, not verified: the kernel's path resolution (lexical `inside` = no symbolic links inside the mail "
         "root; RENAME's transient symlink is taken as the rename it ends as), mailbox.MH / pathlib joining root and "
